@@ -15,6 +15,7 @@ structure Cfg where
   closable : List Nat := []
   progs : List (List Nat) := []
   sig : List (Nat × Option Nat) := []   -- (handler sender, victim: none = loop thread)
+  forks : Nat := 0      -- how many fork + uv_loop_fork (continue in the child) may happen in one run
   eintr : Nat := 0      -- how many EINTR answers the environment may give in one run
   cap : Option Nat := none   -- eventfd counter saturates at this value (none = 2^64-2)
 
@@ -22,6 +23,8 @@ structure DS where
   s : State
   k : List Nat    -- per sender: index of its next send
   ei : Nat := 0   -- EINTR answers left
+  fk : Nat := 0   -- forks left
+  dead : List Nat := []   -- senders that were inside uv_async_send at fork time: threads that do not exist in the child
 
 structure D where
   cfg : Cfg := {}
@@ -43,13 +46,14 @@ def parseCfg (ws : List String) : Cfg :=
     | ["close", v] => { c with closable := natList v }
     | ["senders", v] => { c with progs := if v = "-" then [] else (v.splitOn ";").map natList }
     | ["eintr", v] => { c with eintr := nat! v }
+    | ["fork", v] => { c with forks := nat! v }
     | ["cap", v] => { c with cap := if v = "-" then none else some (nat! v) }
     | ["sig", v] => { c with sig := if v = "-" then [] else (v.splitOn ",").map parseSig }
     | _ => c) {}
 
 def initDS (c : Cfg) : DS :=
   { s := match c.cap with | none => init c.nh c.progs.length | some n => init c.nh c.progs.length (n - 1),
-    k := c.progs.map fun _ => 0, ei := c.eintr }
+    k := c.progs.map fun _ => 0, ei := c.eintr, fk := c.forks }
 
 def spcName : SPc → String
   | .idle => "idle" | .load => "load" | .inc => "inc" | .xchg => "xchg" | .write => "write" | .dec => "dec"
@@ -74,12 +78,13 @@ def enabledToks (c : Cfg) (d : DS) : List String :=
   let s := d.s
   let snds := (List.range s.snd.length).filter fun t =>
     let x := s.snd[t]?.getD ({} : Sender)
-    (if x.pc = .idle then d.k.getD t 0 < (c.progs.getD t []).length else true) && !interrupted c d (some t)
+    (if x.pc = .idle then d.k.getD t 0 < (c.progs.getD t []).length else true) && !interrupted c d (some t) && !d.dead.contains t
   let lok := !interrupted c d none
   snds.map (fun t => s!"s{t}")
     ++ ((snds.filter fun t => d.ei > 0 && enabled s (.eintr (some t))).map fun t => s!"e{t}")
     ++ (if lok && d.ei > 0 && enabled s (.eintr none) then ["i"] else [])
     ++ (if lok && enabled s .loop then ["l"] else [])
+    ++ (if lok && d.fk > 0 && enabled s .fork then ["k"] else [])
     ++ ((c.closable.filter fun h => lok && enabled s (.close h)).map fun h => s!"c{h}")
     ++ (if lok && enabled s .closeCbs && (List.range s.nh).any (fun h => (s.hs h).unlinked && !(s.hs h).freed) then ["f"] else [])
 
@@ -94,7 +99,7 @@ def stateStr (c : Cfg) (d : DS) : String :=
     let x := s.snd[t]?.getD ({} : Sender)
     s!"t{t}:{spcName x.pc},h{x.h},k{d.k.getD t 0},q{x.seq}"
   s!"efd={s.efd} lpc={lpcName s.lpc} q={listStr s.queue} hl={listStr s.handles} | "
-    ++ " ".intercalate hs ++ " | " ++ " ".intercalate ts ++ s!" | ei={d.ei} en=" ++ ",".intercalate (enabledToks c d)
+    ++ " ".intercalate hs ++ " | " ++ " ".intercalate ts ++ s!" | ei={d.ei} fk={d.fk} en=" ++ ",".intercalate (enabledToks c d)
 
 /-- apply one token; returns the effect text -/
 def applyTok (c : Cfg) (d : DS) (tok : String) : Option (DS × String) :=
@@ -110,6 +115,8 @@ def applyTok (c : Cfg) (d : DS) (tok : String) : Option (DS × String) :=
       | .closeStore h _ => s!"store h{h}"
       | .closeSpin h _ => s!"spin h{h} unlink"
     (step? s .loop).map fun s' => ({ d with s := s' }, eff)
+  else if tok = "k" then
+    (step? s .fork).map fun s' => ({ d with s := s', fk := d.fk - 1, dead := d.dead ++ busyThreads d }, "fork")
   else if tok = "i" then
     (step? s (.eintr none)).map fun s' => ({ d with s := s', ei := d.ei - 1 }, "drain EINTR")
   else if tok.startsWith "e" then
